@@ -23,7 +23,7 @@ META = {}
 class Inst:
     def __init__(self, name, harness, defs=None, unwind=2, unwindset=None, objbits=8, cap_quick=300, cap_thorough=1500,
                  types=None, extra_types=None, tmr_cbs=None, csdo_cbs=None, fp_override=None, family=None,
-                 conversion_check=False, solver=None, weight=1, collect_functions=True, bounds=None, harness_only=None):
+                 conversion_check=False, solver=None, weight=1, collect_functions=True, bounds=None, harness_only=None, safety_only=False):
         self.name = name
         self.harness = harness
         self.defs = dict(defs or {})
@@ -44,6 +44,7 @@ class Inst:
         self.collect_functions = collect_functions
         self.bounds = bounds
         self.harness_only = set(harness_only or [])
+        self.safety_only = safety_only
 
     def bounds_text(self):
         us = ', '.join('%s:%s' % (k if isinstance(k, str) else '%s#%d' % k, v) for k, v in sorted(self.unwindset.items(), key=str))
@@ -608,18 +609,23 @@ def c14(tier):
     uw = node_unwind(2)
     uw.update(lss_unwind())
     uw.update({'COSyncInit': 4, 'COSyncHandler': 4, 'COSyncUpdate': 4, 'COSyncRx': 9, 'CORPdoCheck': 4, 'CORPdoReset': 10, 'CORPdoWrite': 10, 'CORPdoGetMap': 10,
-               'COTPdoGetMap': 10, 'COTPdoTx': 10, 'COTmrClear': 4, 'COEmcyReset': 6, 'COTPdoNumWrite': 11, 'sum_bytes': 6, 'map_ok': 120,
+               'COTPdoGetMap': 10, 'COTPdoTx': 10, 'COTmrClear': 4, 'COEmcyReset': 6, 'COTPdoNumWrite': 11, 'sum_bytes': 10, 'map_ok': 130,
                'COTmrDelete': 5, 'COTmrInsert': 5, 'COTmrRemove': 6})
-    tg = ['cobid', 'type', 'count', 'map1', 'map2', 'map3', 'map4']
+    tg = ['cobid', 'type', 'count', 'map1', 'map2', 'map3', 'map4', 'map5', 'map6', 'map7', 'map8']
     for d in (0, 1):
-        for t in range(7):
-            for mode in ((2, 3) if t <= 1 else (2,)):
-                defs = dict(NODE_DEFS)
-                defs.update({'DIR': d, 'TGT': t, 'MODE': mode, 'CO_VERIF_SDO_BUF_SEG': 2})
-                out.append(Inst('pdocfg_%s_%s_%s' % ('tpdo' if d else 'rpdo', tg[t], NMT_MODE[mode]), 'pdocfg_step.c', defs, unwind=130, unwindset=uw, objbits=10,
-                                harness_only=['DIR', 'TGT', 'MODE'], family='pdocfg_step',
-                                bounds='one SDO write to %s %s in %s: stored COB-ID (11 bit + valid bit), type, count 0..4, four mapping entries and the written value all symbolic' % (
-                                    'TPDO 0' if d else 'RPDO 0', tg[t], NMT_MODE[mode])))
+        for maps in (4, 8):
+            for t in range(3 + maps):
+                if maps == 8 and t not in (2, 7, 10) and tier == 'quick':
+                    continue
+                if maps == 8 and t in (0, 1):
+                    continue
+                for mode in ((2, 3) if t <= 1 else (2,)):
+                    defs = dict(NODE_DEFS)
+                    defs.update({'DIR': d, 'TGT': t, 'MODE': mode, 'CO_VERIF_SDO_BUF_SEG': 2, 'OD_MAPS': maps})
+                    out.append(Inst('pdocfg_%s_%s_%s%s' % ('tpdo' if d else 'rpdo', tg[t], NMT_MODE[mode], '_m8' if maps == 8 else ''), 'pdocfg_step.c', defs, unwind=140, unwindset=uw, objbits=10,
+                                    harness_only=['DIR', 'TGT', 'MODE'], family='pdocfg_step',
+                                    bounds='one SDO write to %s %s in %s: stored COB-ID (11 bit + valid bit), type, count 0..%d, %d mapping entries and the written value all symbolic' % (
+                                        'TPDO 0' if d else 'RPDO 0', tg[t], NMT_MODE[mode], maps, maps)))
     return out
 
 
@@ -713,7 +719,7 @@ def c17(tier):
     return out
 
 
-def csdo_inst(kind, dirn=0, size=4, beh=0, j=0, follow=1):
+def csdo_inst(kind, dirn=0, size=4, beh=0, j=0, follow=1, cbtmr=False):
     defs = dict(NODE_DEFS)
     defs.update({'KIND': kind, 'DIRN': dirn, 'SIZE': size, 'BEH': beh, 'J': j, 'FOLLOW': follow, 'CO_VERIF_SDO_BUF_SEG': 2, 'OD_TMR_N': 3})
     uw = node_unwind(2)
@@ -721,14 +727,16 @@ def csdo_inst(kind, dirn=0, size=4, beh=0, j=0, follow=1):
     uw.update({'COSyncInit': 4, 'COTmrClear': 4, 'COEmcyReset': 6, 'COTmrDelete': 4, 'COTmrInsert': 4, 'COTmrRemove': 5, 'COTmrProcess': 4, 'COTmrReset': 4, 'CoVerifTmrPool': 4,
                'free_actions': 5, 'COCSdoInit': 3, 'COCSdoCheck': 3, 'COCSdoUploadExpedited': 6, 'COCSdoUploadSegmented': 9, 'COCSdoInitDownloadSegmented': 9,
                'COCSdoDownloadSegmented': 9, 'COCSdoRequestDownload': 6})
+    if cbtmr:
+        defs['CBTMR'] = None
     behs = ['conforming', 'abort at step %d' % j, 'silent from step %d' % j, 'unknown command at step %d' % j, 'wrong toggle at step %d' % j, 'oversized / foreign answer']
     if kind == 1:
         return Inst('csdo_step', 'csdo_e2e.c', defs, unwind=602, unwindset=uw, objbits=10, csdo_cbs=['cb'], harness_only=['KIND', 'DIRN', 'SIZE', 'BEH', 'J', 'FOLLOW'],
                     family='csdo_e2e', bounds='segmented download context with 32-bit symbolic Size (5..600) and Buf_Idx, one segment confirmation')
-    return Inst('csdo_%s_s%d_b%d_j%d%s' % ('dn' if dirn else 'up', size, beh, j, '' if follow else '_nf'), 'csdo_e2e.c', defs, unwind=max(size + 20, 24), unwindset=uw,
-                objbits=10, csdo_cbs=['cb'], harness_only=['KIND', 'DIRN', 'SIZE', 'BEH', 'J', 'FOLLOW'], family='csdo_e2e',
-                bounds='%s of %d bytes (payload symbolic), server %s, time-out %d ticks; followed by a second transfer with a longer time-out' % (
-                    'download' if dirn else 'upload', size, behs[beh], 3))
+    return Inst('csdo_%s_s%d_b%d_j%d%s%s' % ('dn' if dirn else 'up', size, beh, j, '' if follow else '_nf', '_cbt' if cbtmr else ''), 'csdo_e2e.c', defs, unwind=max(size + 20, 24), unwindset=uw,
+                objbits=10, csdo_cbs=['cb'], tmr_cbs=['app_cb'], harness_only=['KIND', 'DIRN', 'SIZE', 'BEH', 'J', 'FOLLOW', 'CBTMR'], family='csdo_e2e',
+                bounds='%s of %d bytes (payload symbolic), server %s, time-out %d ticks; followed by a second transfer with a longer time-out%s' % (
+                    'download' if dirn else 'upload', size, behs[beh], 3, '; the completion callback starts an application timer' if cbtmr else ''))
 
 
 def c19(tier):
@@ -748,6 +756,10 @@ def c19(tier):
                     if tier == 'quick' and sz not in (3, 4, 8, 15):
                         continue
                     out.append(csdo_inst(0, d, sz, beh, j))
+    # the completion callback starts a timer: every way a transfer can end
+    for d in (0, 1):
+        for sz, beh, j in ((4, 0, 0), (8, 0, 0), (4, 1, 0), (4, 2, 0), (8, 2, 1), (8, 1, 1), (4, 3, 0), (8, 4, 1)):
+            out.append(csdo_inst(0, d, sz, beh, j, cbtmr=True))
     return out
 
 
@@ -783,8 +795,29 @@ def c20(tier):
     return out
 
 
+def safety(insts):
+    out = []
+    for i in insts:
+        i.name = 'sfty_' + i.name
+        i.safety_only = True
+        i.bounds = (i.bounds or '') + ' [safety sweep: memory safety, arithmetic, termination, fatal error only]'
+        out.append(i)
+    return out
+
+
 def c01(tier):
-    return sdo_step_insts(tier) + sdo_two_servers(tier)
+    out = sdo_step_insts(tier) + sdo_two_servers(tier)
+    # safety sweep over the step harnesses of the other services: same cbmc built-in checks, arbitrary state + arbitrary input
+    sw = [i for i in c18(tier) if '_preop_' in i.name]                                  # every LSS command specifier, both LSS states
+    sw += [i for i in c09(tier) if ('_op_' in i.name or '_preop_' in i.name)]           # one input of every class
+    sw += [i for i in c13(tier) if i.name.endswith('_op_R') or i.name.endswith('_op_RS') or i.name.endswith('_op_SR')]
+    sw += [i for i in c14(tier) if '_preop' in i.name]
+    sw += [i for i in c11(tier) if '_write' in i.name or i.name.endswith('_hb')][:(24 if tier == 'quick' else 200)]
+    sw += [i for i in c15(tier) if '_preop_' in i.name and '_h2_' in i.name]
+    sw += [i for i in c19(tier) if i.name == 'csdo_step' or '_b5_' in i.name or '_b3_' in i.name]
+    sw += [i for i in c16(tier) if i.name.startswith('sync_')]
+    sw += [i for i in c08(tier) if '_isr1_' in i.name][:(12 if tier == 'quick' else 60)]
+    return out + safety(sw)
 
 
 PROPS = {
